@@ -23,6 +23,8 @@ import (
 	"encoding/pem"
 	"errors"
 	"fmt"
+	"io"
+	"log"
 	"net"
 	"net/http"
 	"net/http/httptest"
@@ -459,7 +461,7 @@ func TestVerif_C19_e2e(t *testing.T) {
 
 	tlsSrv := httptest.NewTLSServer(http.HandlerFunc(func(rw http.ResponseWriter, r *http.Request) { rw.Write([]byte("ok")) }))
 	defer tlsSrv.Close()
-	tlsSrv.Config.ErrorLog = nil
+	tlsSrv.Config.ErrorLog = log.New(io.Discard, "", 0) // expected handshake failures
 	srvPEM := string(pemEncode(tlsSrv.Certificate().Raw))
 	get := func(c *Client, url string) error {
 		_, err := c.R().Get(url)
